@@ -70,7 +70,7 @@ class Ctx:
         ex = ["--exclude=*.o", "--exclude=*.lo", "--exclude=*.la", "--exclude=.libs", "--exclude=.deps",
               "--exclude=*.trs", "--exclude=*.log", "--exclude=trash-directory*", "--exclude=test-results",
               "--exclude=.dirstamp"]
-        for sub in ["src", "etc", "config/config.h", "man", "t/etc", "t/simulators", "heartbeat"]:
+        for sub in ["src", "etc", "config/config.h", "man", "t/etc", "t/simulators", "t/Makefile.am", "heartbeat"]:
             s = os.path.join(REPO, sub)
             if not os.path.exists(s):
                 continue
